@@ -3,8 +3,11 @@ import RlibModel.Model.Dsu
 Line-protocol driver for engine `dsu` (property C05).
 
 A case is a history `n0 [flags] ; op ; op ; …` on `DSU::new(n0)` (plus a saved clone of it); flags (`ss` = the harness
-runs the history in a child process with a 256 KiB stack) are ignored by the model.  Ops:
+runs the history in a child process with a 256 KiB stack, `dk` = the harness keeps decoy structures alive and uses them
+between the operations) are ignored by the model.  Ops:
   `un u v` `par v` `check u v` `size v` `reset n` `clone` `swap` `dump`
+  `clonefrom` (saved.clone_from(&current))   `restore` (current.clone_from(&saved))
+  `feed v` (returned values fed back: r = par v; check v r; size r; par r; un r v - one token `r/b/k/r'/b'`)
 and macro ops that both sides expand to the same primitive calls (adversarial orders for large n):
   `chain a b` (un(i,i+1), i=a..b-2)   `chainr a b` (un(i+1,i))   `star c a b` (un(c,i))   `starr c a b` (un(i,c))
   `binom lo hi` (rounds pairing the *last* elements of equal blocks: the binomial-tree worst case, no compression)
@@ -291,6 +294,41 @@ def doOp (st : DState) (toks : List String) : Out :=
     | _ => .bad
   | ["clone"] => prim st .clone true (fun sys _ => .tok ⟨sys, st.spC, st.spC⟩ (tok1 "-"))
   | ["swap"] => prim st .swap true (fun sys _ => .tok ⟨sys, st.spS, st.spC⟩ (tok1 "-"))
+  -- `Clone::clone_from` between the two live structures, both directions: the destination's specification state is replaced
+  | ["clonefrom"] => prim st .cloneFrom true (fun sys _ => .tok ⟨sys, st.spC, st.spC⟩ (tok1 "-"))
+  | ["restore"] => prim st .restore true (fun sys _ => .tok ⟨sys, st.spS, st.spS⟩ (tok1 "-"))
+  -- returned values fed back: r = par v; check v r; size r; par r; un r v   (spec: r, t, |class of v|, r, f)
+  | ["feed", v] =>
+    match parseNat? v with
+    | some v =>
+      prim st (.par v) (v < n) (fun sys1 r1 =>
+        match r1 with
+        | .nat r =>
+          let (sp1, ok1) := st.spC.rep v r
+          if !(r < n) then .stop ⟨toString r, "R!", "r"⟩ false else
+          prim ⟨sys1, sp1, st.spS⟩ (.check v r) true (fun sys2 r2 =>
+            match r2 with
+            | .bool b =>
+              prim ⟨sys2, sp1, st.spS⟩ (.size r) true (fun sys3 r3 =>
+                match r3 with
+                | .nat k =>
+                  prim ⟨sys3, sp1, st.spS⟩ (.par r) true (fun sys4 r4 =>
+                    match r4 with
+                    | .nat rr =>
+                      let (sp4, ok4) := sp1.rep r rr
+                      prim ⟨sys4, sp4, st.spS⟩ (.un r v) true (fun sys5 r5 =>
+                        match r5 with
+                        | .bool ub =>
+                          let rp (o : Bool) : String := if o then "r" else "R!"
+                          .tok ⟨sys5, sp4, st.spS⟩
+                            ⟨s!"{r}/{showB b}/{k}/{rr}/{showB ub}", s!"{rp ok1}/{showB b}/{k}/{rp ok4}/{showB ub}",
+                             s!"r/t/{st.spC.part.size v}/r/f"⟩
+                        | _ => .bad)
+                    | _ => .bad)
+                | _ => .bad)
+            | _ => .bad)
+        | _ => .bad)
+    | _ => .bad
   | ["dump"] => let t := dumpTok st.sys.cur; .tok st ⟨"dump", t.view, t.spec⟩
   | ["dumpdiag"] => let t := dumpTok st.sys.cur; .tok st ⟨t.raw, "diag", "diag"⟩
   | ["parall"] =>
